@@ -294,6 +294,28 @@ def run_ctor(prog, rep, rule):
 
 def run_file_open(prog, rep, rule):
     fo = prog.fn('nix::File::open')
+    # the open flags and the compression asked for reach the backend, in every mode (Auto compression is resolved to None first)
+    for mode in enumerators(prog, 'nix::FileMode'):
+        for fl in enumerators(prog, 'nix::OpenFlags'):
+            for comp in enumerators(prog, 'nix::Compression'):
+                res = HdrInterp(prog).enumerate(fo, this=None, args=[('name',), ('e', mode), ('impl',), ('e', comp), ('e', fl)])
+                for assign, out, log, fields in res:
+                    made = [l for l in log if l[0] == 'make_shared']
+                    if not made:
+                        continue
+                    m = made[0]
+                    key = 'File::open|mode=%s|flags=%s|compression=%s|forwarded' % (mode.split('::')[-1], fl.split('::')[-1], comp.split('::')[-1])
+                    want_comp = ('e', 'nix::Compression::None') if comp.endswith('::Auto') else ('e', comp)
+                    got_fl = m[5] if len(m) > 5 else None
+                    got_comp = m[4] if len(m) > 4 else None
+                    probs = []
+                    if got_fl is None and fl.endswith('::None'):
+                        got_fl = ('e', fl)      # the constructor's default
+                    if got_fl != ('e', fl):
+                        probs.append('the backend is constructed with flags %r instead of %s (a missing argument means OpenFlags::None: Force is dropped)' % (got_fl, fl))
+                    if got_comp != want_comp and not mode.endswith('ReadOnly'):
+                        probs.append('the backend is constructed with compression %r instead of %s' % (got_comp, want_comp[1]))
+                    rule.check(not probs, key, rep.where(fo), fo.q, 'flags and compression reach the backend', '; '.join(probs))
     for mode in enumerators(prog, 'nix::FileMode'):
         it = HdrInterp(prog)
         res = it.enumerate(fo, this=None, args=[('name',), ('e', mode), ('impl',), ('e', 'nix::Compression::None'), ('e', 'nix::OpenFlags::None')])
